@@ -180,7 +180,7 @@ func TestRSAPKCS1(t *testing.T) {
 		route, variant, id := drawRouteVariantID(rt)
 		msg := gen.Bytes(rt, "msg", 1024)
 
-		c := &sigCase{scheme: "RSAPKCS1", params: fmt.Sprintf("%d-%s", pk.bits, h.name), variant: variant, id: id, route: route,
+		c := &sigCase{scheme: "RSAPKCS1", params: fmt.Sprintf("%d-%s", pk.bits, h.name), cls: fmt.Sprintf("%d/%s", pk.bits, h.name), variant: variant, id: id, route: route,
 			keyDesc: pk.desc(), prefix: tk.Prefix(variant, id)}
 		switch route {
 		case "subtle":
@@ -396,7 +396,7 @@ func TestRSAPSS(t *testing.T) {
 		route, variant, id := drawRouteVariantID(rt)
 		msg := gen.Bytes(rt, "msg", 1024)
 
-		c := &sigCase{scheme: "RSAPSS", params: fmt.Sprintf("%d-%s-%s", pk.bits, h.name, saltClass(salt, max, h)), variant: variant, id: id, route: route,
+		c := &sigCase{scheme: "RSAPSS", params: fmt.Sprintf("%d-%s-salt%d", pk.bits, h.name, salt), cls: fmt.Sprintf("%d/%s", pk.bits, saltClass(salt, max, h)), variant: variant, id: id, route: route,
 			keyDesc: fmt.Sprintf("salt=%d %s", salt, pk.desc()), prefix: tk.Prefix(variant, id)}
 		if err := buildPSS(c, pk, h, salt, variant, id, route); err != nil {
 			rt.Fatalf("%v\n construction failed inside the documented domain: %v", c, err)
